@@ -2,9 +2,11 @@ package main
 
 import (
 	"encoding/json"
+	"fmt"
 	"os"
 	"path/filepath"
 	"sort"
+	"strings"
 
 	"verifsim/engine"
 )
@@ -51,6 +53,20 @@ func writeEvidence(prop, tier string, seed uint64, spec engine.PropSpec, a *Agg,
 		}
 		return x / wall * 3600
 	}
+	e3runs := 0
+	for name, cnt := range a.PerProfile {
+		if name == "node" || strings.HasSuffix(name, "-node") || strings.HasSuffix(name, "-node+deep") {
+			e3runs += cnt
+		}
+	}
+	real := []string{"raft.go", "log.go", "log_unstable.go", "rawnode.go", "read_only.go", "tracker/", "quorum/", "confchange/",
+		"raftpb (marshal at send, unmarshal per delivery)", "storage.go MemoryStorage (page cache)", "bootstrap.go", "status.go", "crypto/rand.Int draw in resetRandomizedElectionTimeout (bytes from the seeded seam)"}
+	notRun := []string{"rafttest/", "default logger"}
+	if e3runs > 0 {
+		real = append(real, fmt.Sprintf("node.go (channel-based Node with its run loop goroutine, in the %d E3 runs of this batch)", e3runs))
+	} else {
+		notRun = append(notRun, "node.go channel wrapper (no E3 runs in this batch)")
+	}
 	cov := map[string]interface{}{
 		"evaluations":         a.Runs,
 		"distinct_nontrivial": min(int(a.NonTrivial), a.DistinctDigests),
@@ -93,10 +109,10 @@ func writeEvidence(prop, tier string, seed uint64, spec engine.PropSpec, a *Agg,
 		"max_term":                          a.MaxTerm,
 		"determinism_reexecutions":          a.DetChecked,
 		"determinism_mismatches":            a.DetMismatch,
-		"components_real": []string{"raft.go", "log.go", "log_unstable.go", "rawnode.go", "read_only.go", "tracker/", "quorum/", "confchange/",
-			"raftpb (marshal at send, unmarshal per delivery)", "storage.go MemoryStorage (page cache)", "bootstrap.go", "status.go", "crypto/rand.Int draw in resetRandomizedElectionTimeout (bytes from the seeded seam)"},
-		"components_stub":    []string{"network (simulated transport)", "clocks (simulated tick sources)", "disk durability (journal + durable image)", "application state machine (hash chain + register file)", "clients and operators (seeded workload)"},
-		"components_not_run": []string{"node.go channel wrapper", "rafttest/", "default logger"},
+		"components_real":                   real,
+		"components_stub":                   []string{"network (simulated transport)", "clocks (simulated tick sources)", "disk durability (journal + durable image)", "application state machine (hash chain + register file)", "clients and operators (seeded workload)"},
+		"components_not_run":                notRun,
+		"e3_node_runs":                      e3runs,
 	}
 	ev := map[string]interface{}{
 		"property_id": prop,
